@@ -50,19 +50,28 @@ func codecPairs(c *core.Ctx) []codecPair {
 			pt := types.NewPointer(nt)
 			rel := strings.TrimPrefix(pk.Types.Path(), ir.Mod+"/")
 			for _, st := range [][3]string{{"zc", "Serialization", "Deserialization"}, {"io", "Serialize", "Deserialize"}} {
-				w := methodOf(pk.SSA.Prog, pt, pk.Types, st[1])
-				r := methodOf(pk.SSA.Prog, pt, pk.Types, st[2])
+				w := declaredMethod(pk.SSA.Prog, nt, pk.Types, st[1])
+				r := declaredMethod(pk.SSA.Prog, nt, pk.Types, st[2])
+				_ = pt
 				if w == nil || r == nil || len(w.Blocks) == 0 || len(r.Blocks) == 0 {
-					continue
-				}
-				if w.Synthetic != "" || r.Synthetic != "" {
-					continue // promoted through embedding: checked on the embedded type
+					continue // absent, or only promoted through embedding (checked on the embedded type)
 				}
 				out = append(out, codecPair{nt, rel, st[0], w, r})
 			}
 		}
 	}
 	return out
+}
+
+// declaredMethod: the method `name` declared on nt itself with a value or a pointer
+// receiver (not a wrapper synthesised for the other receiver kind or for embedding).
+func declaredMethod(prog *ssa.Program, nt *types.Named, pkg *types.Package, name string) *ssa.Function {
+	for _, t := range []types.Type{nt, types.NewPointer(nt)} {
+		if f := methodOf(prog, t, pkg, name); f != nil && f.Synthetic == "" {
+			return f
+		}
+	}
+	return nil
 }
 
 // codecException: pairs whose kind lists legitimately differ (frozen, one reason each).
